@@ -81,7 +81,7 @@ def run(repo, rep):
                   'allowed use of the setting: %s' % use,
                   '%s uses the max_seq_len setting in %s: outside the closed set of uses (compare with len, subtract from '
                   'len under that guard, take, pass along)' % (f.key, src(p)[:80]), nontrivial=True)
-    rep.floor('C10.a', n, 6)
+    rep.floor('C10.a', n, 3)
 
     # ---------------------------------------------------------------- C10.b arithmetic
     n = 0
@@ -158,14 +158,30 @@ def run(repo, rep):
                                                                                          want_count, ' followed by the user comment' if tc is not NONE else ''),
                               nontrivial=True)
         # truncated iteration of the same container
-        takes = [c for c in ast.walk(f.node) if isinstance(c, ast.Call) and call_name(c) == 'take']
+        takes = [(c, value, N, defs) for c in ast.walk(f.node) if isinstance(c, ast.Call) and call_name(c) == 'take']
+        # ... also when the elements are rendered by a private helper the printer hands its value and context to
+        for c in ast.walk(f.node):
+            if isinstance(c, ast.Call) and isinstance(c.func, ast.Name) and not takes:
+                r_ = repo.resolve(f.module, c.func.id)
+                if not (r_ and r_[0] == 'func' and r_[1].name.startswith('_')):
+                    continue
+                h_ = r_[1]
+                bound_ = dict(zip(h_.params, [src(a) for a in c.args]))
+                bound_.update({k.arg: src(k.value) for k in c.keywords if k.arg})
+                hv_ = [p_ for p_, a_ in bound_.items() if a_ == value]
+                hc_ = [p_ for p_, a_ in bound_.items() if a_ == ctx]
+                if hv_ and hc_:
+                    from .ctxuse import single_defs as _sd
+                    for t_ in ast.walk(h_.node):
+                        if isinstance(t_, ast.Call) and call_name(t_) == 'take':
+                            takes.append((t_, hv_[0], '%s.%s' % (hc_[0], ATTR), _sd(h_.node)))
         n += 1
         okt = False
         detail = 'no take(...) call'
-        for t in takes:
-            if len(t.args) == 2 and src(t.args[0]) == N:
+        for t, value_, N_, defs_ in takes:
+            if len(t.args) == 2 and src(t.args[0]) == N_:
                 it = t.args[1]
-                okt = _iterates(it, value, defs)
+                okt = _iterates(it, value_, defs_)
                 detail = 'take(%s, %s)' % (src(t.args[0]), src(it))
             else:
                 detail = src(t)
@@ -252,8 +268,20 @@ def run(repo, rep):
 
     # ---------------------------------------------------------------- C10.e coverage
     n = 0
-    for f in sorted(printers.values(), key=lambda x: x.key):
-        value = f.params[0]
+    # the container printers and the private helpers they hand the container to (the parameter that receives it plays the part
+    # of ``value`` there)
+    scope = [(f, f.params[0]) for f in sorted(printers.values(), key=lambda x: x.key)]
+    for f, value in list(scope):
+        for c in ast.walk(f.node):
+            if isinstance(c, ast.Call) and isinstance(c.func, ast.Name):
+                r_ = repo.resolve(f.module, c.func.id)
+                if r_ and r_[0] == 'func' and r_[1].name.startswith('_') and r_[1].parent is None:
+                    bound_ = dict(zip(r_[1].params, [src(a) for a in c.args]))
+                    bound_.update({k.arg: src(k.value) for k in c.keywords if k.arg})
+                    for p_, a_ in bound_.items():
+                        if a_ == value and (r_[1], p_) not in scope:
+                            scope.append((r_[1], p_))
+    for f, value in scope:
         defs = single_defs(f.node)
         g = Guards(f.node)
         for node in ast.walk(f.node):
